@@ -24,6 +24,11 @@ func MarshalString(g orb.Geometry) string {
 }
 
 func wkt(buf *bytes.Buffer, geom orb.Geometry) {
+	if geom == nil {
+		// a nil geometry has no text, like it has no wkb bytes.
+		return
+	}
+
 	switch g := geom.(type) {
 	case orb.Point:
 		fmt.Fprintf(buf, "POINT(%g %g)", g[0], g[1])
